@@ -476,7 +476,9 @@ Definition build_property (p : prop) : M fdesc :=
     let required := p_required p || primary_key_shape (p_shape p) in
     when required (ensure IBufValidate ;;; setext st_required ;;; ensure IJ5Ext) ;;;
     if p_optional p && required then fail "cannot be both required and optional"
-    else ret (mkDesc pt tn rep (p_optional p)).
+    (* proto3_optional only on a singular field (fix d536c9b): a repeated field (array, map) cannot be the
+       member of the synthetic oneof *)
+    else ret (mkDesc pt tn rep (p_optional p && negb rep)).
 
 (* ------------------------------------------------------------------ one-property file *)
 (* visitObjectNode for `object Foo { field f ... }` in a file with nothing else, then the
